@@ -24,7 +24,7 @@ def _preimport():
     own_synchronisation([m for n, m in list(sys.modules.items()) if m is not None and (n == "bits" or n.startswith("bits."))])
 
 
-def _one_in_child(run, judge, prefix, bound, warmup=None):
+def _one_in_child(run, judge, prefix, bound, warmup=None, post=None):
     """run one execution in a forked child (a fresh copy of the process image: lazily built module state of the library is
     exactly as at the fork) and ship back the choice points and the verdicts"""
     import os
@@ -47,6 +47,8 @@ def _one_in_child(run, judge, prefix, bound, warmup=None):
                 viol = [("concurrent/deadlock", "the concurrent calls deadlock: " + str(ex_deadlock[0]))]
             else:
                 viol = list(judge(results, errors))
+            if post is not None and abort is None:
+                viol += list(post())       # sequential follow-up calls after the threads have finished (same process image)
             payload = {"choices": ctx.choices, "points": [(i, n, costs, cb, st[1] if isinstance(st, tuple) and st and st[0] == "hit" else 1) for (i, n, costs, cb, st) in ctx.points], "viol": viol}
         except BaseException:
             import traceback
@@ -61,7 +63,7 @@ def _one_in_child(run, judge, prefix, bound, warmup=None):
     return pickle.loads(data)
 
 
-def explore_calls(acc, calls, files, bound, judge, kind, case, max_exec=50_000, horizon=200_000, warmup=None, max_hits=None):
+def explore_calls(acc, calls, files, bound, judge, kind, case, max_exec=50_000, horizon=200_000, warmup=None, max_hits=None, post=None):
     """calls: list of zero-argument callables (one per thread) returning an observation; files: tuple of path suffixes
     whose frames are scheduling points; judge(observations, errors) -> [(key, desc)].  Every execution runs in its own
     forked child, so the calls are always the FIRST calls of their process image."""
@@ -89,7 +91,7 @@ def explore_calls(acc, calls, files, bound, judge, kind, case, max_exec=50_000, 
             capped = True
             break
         prefix = stack.pop()
-        r = _one_in_child(run, judge, prefix, bound, warmup)
+        r = _one_in_child(run, judge, prefix, bound, warmup, post)
         if "error" in r:
             raise RuntimeError("concurrent-call explorer: " + r["error"])
         n_exec += 1
@@ -120,7 +122,7 @@ def explore_calls(acc, calls, files, bound, judge, kind, case, max_exec=50_000, 
     return R
 
 
-def replay_calls(calls, files, choices, judge, horizon=200_000, warmup=None):
+def replay_calls(calls, files, choices, judge, horizon=200_000, warmup=None, post=None):
     _preimport()
     if warmup is not None:
         warmup()
@@ -143,7 +145,10 @@ def replay_calls(calls, files, choices, judge, horizon=200_000, warmup=None):
     results, errors, abort, dl = obs
     if abort == "deadlock":
         return [("concurrent/deadlock", "the concurrent calls deadlock: " + str(dl))]
-    return judge(results, errors)
+    out = list(judge(results, errors))
+    if post is not None and abort is None:
+        out += list(post())
+    return out
 
 
 # ---------------------------------------------------------------------------------------------------------------------
@@ -155,6 +160,14 @@ def _case_setup(chk, prop, scen):
     calls = [(lambda k=k, c=c: chk(k, c)) for k, c in threads]
     warm = (lambda: [chk(k, c) for k, c in scen["warm"]]) if scen.get("warm") else None
 
+    def post_():
+        out = []
+        for k, c in scen.get("post") or []:
+            for key, desc in chk(k, c) or []:
+                out.append((key + "/after-concurrent-calls", f"sequential call ({k}) made after the {len(threads)} concurrent calls had finished: {desc}"))
+        return out
+    post = post_ if scen.get("post") else None
+
     def judge(results, errors):
         out = []
         for i, (k, c) in enumerate(threads):
@@ -165,15 +178,15 @@ def _case_setup(chk, prop, scen):
                 out.append((key + "/concurrent", f"thread {i} ({k}) with {len(threads) - 1} other call(s) in flight"
                             f"{' after ' + str(len(scen['warm'])) + ' warm-up call(s)' if scen.get('warm') else ''}: {desc}"))
         return out
-    return calls, warm, judge
+    return calls, warm, judge, post
 
 
 def explore_cases(acc, chk, prop, scen, files, bound, max_exec=20_000, max_hits=None):
-    calls, warm, judge = _case_setup(chk, prop, scen)
-    case = {"threads": [list(t) for t in scen["threads"]], "warm": [list(t) for t in scen.get("warm", [])]}
-    return explore_calls(acc, calls, files, bound, judge, "concurcase", case, max_exec=max_exec, warmup=warm, max_hits=max_hits)
+    calls, warm, judge, post = _case_setup(chk, prop, scen)
+    case = {"threads": [list(t) for t in scen["threads"]], "warm": [list(t) for t in scen.get("warm", [])], "post": [list(t) for t in scen.get("post", [])]}
+    return explore_calls(acc, calls, files, bound, judge, "concurcase", case, max_exec=max_exec, warmup=warm, max_hits=max_hits, post=post)
 
 
 def replay_cases(chk, prop, case, files):
-    calls, warm, judge = _case_setup(chk, prop, case)
-    return replay_calls(calls, files, case["choices"], judge, warmup=warm)
+    calls, warm, judge, post = _case_setup(chk, prop, case)
+    return replay_calls(calls, files, case["choices"], judge, warmup=warm, post=post)
